@@ -83,12 +83,28 @@ Print Assumptions C07_overlap.
 
 (* several schemas in one upstream: reports carry items for some or all schemas and are refused as a
    whole when an item type does not fit; for every schema, what the history does to it meets the spec *)
-Theorem C07_multi_history : forall M ops sid s, wfM M -> Forall mop_ok ops ->
+Theorem C07_multi_history : forall M ops sid s, wfM M -> Forall iop_ok ops ->
   find_schema sid (m_schemas M) = Some s ->
   hist_ok (is_bucket (h_typ s)) (h_limit s) (h_burst s) (h_quotas s) (h_oquotas s) (pick sid (mtrace M ops))
   = [true; true; true; true; true; true; true; true; true].
 Proof. exact multi_history_ok. Qed.
 Print Assumptions C07_multi_history.
+
+(* a report that overlaps a change of the schema (UpstreamConditionHandler with a new limit, burst or
+   item type): the handler and the report serialise on the per-upstream mutex and the report reads
+   limit and sums inside it, so the outcome is that of one of the two orders.  For every state, report
+   and change, in BOTH orders the step meets the spec (the answer obeys every clause against the old or
+   against the new configuration) and afterwards the NEW configuration is in force - so every later
+   answer is checked against it (histories with overlaps are covered by C07_history / C07_multi_history,
+   where BOverlap is one of the operations) *)
+Theorem C07_limit_change_overlap : forall s first r bk n g, wf s -> 0 <= n < two31 -> in_int32 g ->
+  let s' := fst (model_step s (BOverlap first r bk n g)) in
+  step_ok (is_bucket (h_typ s)) (h_limit s) (h_burst s) (h_quotas s) (h_oquotas s)
+          (BOverlap first r bk n g) (snd (model_step s (BOverlap first r bk n g)))
+  = [true; true; true; true; true; true; true; true] /\
+  (is_bucket (h_typ s'), h_limit s', h_burst s') = (bk, n, g) /\ wf s'.
+Proof. exact limit_change_overlap_ok. Qed.
+Print Assumptions C07_limit_change_overlap.
 
 (* ---------------- non-vacuity ---------------- *)
 Definition mk t c tot gb al up cur used lvl cl :=
@@ -142,3 +158,24 @@ Example C07_step_safe_needs_nonneg_current :
   ints_ok i /\ i_allocated i <= i_total i /\ fst (calc_with next i) = 2 /\
   i_allocated i - i_current i + fst (calc_with next i) = 101.
 Proof. vm_compute. repeat split; try reflexivity; discriminate. Qed.
+
+(* limit 100, instance 1 holds 55 and asks for more; its report overlaps the lowering of the limit to 20.
+   Report first: answered 88 against the old limit; change first: answered 20, the new limit.  In both
+   orders limit 20 is in force afterwards: the next report of the instance is answered 20, a newcomer 1 *)
+Definition overlap_grow : bop := BReports [EReport 1 true false 200 150 100 1].
+Definition overlap_demo (first : bool) : list bop :=
+  BReports [EReport 1 true false 0 0 0 1] :: repeat overlap_grow 5 ++
+  [BOverlap first (EReport 1 true false 200 150 100 1) false 20 0; overlap_grow;
+   BReports [EReport 2 true false 0 0 100 2]].
+Example C07_limit_change_overlap_nonvacuous :
+  map (fun first => map (fun ob => o_ans (snd ob)) (model_trace (sinit TMax 100 0) (overlap_demo first))) [true; false]
+  = [[[Some (5, 0)]; [Some (8, 0)]; [Some (13, 0)]; [Some (21, 0)]; [Some (34, 0)]; [Some (55, 0)];
+      [Some (88, 0)]; [Some (20, 0)]; [Some (1, 0)]];
+     [[Some (5, 0)]; [Some (8, 0)]; [Some (13, 0)]; [Some (21, 0)]; [Some (34, 0)]; [Some (55, 0)];
+      [Some (20, 0)]; [Some (20, 0)]; [Some (1, 0)]]]
+  /\ Forall bop_ok (overlap_demo true) /\ wf (sinit TMax 100 0).
+Proof.
+  split; [vm_compute; reflexivity|]. split.
+  - repeat constructor; unfold in_int32, two31; lia.
+  - apply wf_sinit; unfold in_int32, two31; lia.
+Qed.
